@@ -85,6 +85,27 @@ class _Radio(M.CommunicationStateMixin):
         self.radio = r
 
 
+def _bit_siblings(bits, cls):
+    """decode close relatives of the payload first (one bit shorter, last bit flipped, the bits after the
+    type id inverted): a decoder that remembers something under an incomplete key answers the real call
+    with a relative's result"""
+    n = len(bits)
+    rel = []
+    if n > 8:
+        rel.append(bits[:n - 1])
+        b = bitarray(bits)
+        b[n - 1] = not b[n - 1]
+        rel.append(b)
+        b = bitarray(bits)
+        b[6:] = ~b[6:]
+        rel.append(b)
+    for r in rel:
+        try:
+            cls.from_bitarray(r) if cls is not None else decode_bits(r)
+        except Exception:  # noqa
+            pass
+
+
 def decode_bits(bits):
     """MSG_CLASS[ais_id].from_bitarray with the KeyError translation of AISSentence.decode"""
     ais_id = U.get_int(bits, 0, 6)
@@ -99,11 +120,18 @@ def step(line):
     try:
         cmd = p[0]
         if cmd == 'frombits':
+            _bit_siblings(parse_bits(p[1]), None)
             return canon_msg(decode_bits(parse_bits(p[1])))
         if cmd == 'frombits_cls':
+            _bit_siblings(parse_bits(p[2]), getattr(M, p[1]))
             return canon_msg(getattr(M, p[1]).from_bitarray(parse_bits(p[2])))
         if cmd == 'dearmor':
             data = b'' if p[1] == '-' else bytes.fromhex(p[1])
+            for d in (1, 3):            # the same characters with other fill-bit counts first
+                try:
+                    U.decode_into_bit_array(data, (int(p[2]) + d) % 6)
+                except Exception:  # noqa
+                    pass
             return show_bits(U.decode_into_bit_array(data, int(p[2])))
         if cmd == 'armor':
             s, f = U.encode_ascii_6(parse_bits(p[1]))
